@@ -157,8 +157,13 @@ func (m *monitor) filter(update database.Update) ovsdb.TableUpdates {
 		tu := ovsdb.TableUpdate{}
 		cols := make(map[string]bool)
 		cols["_uuid"] = true
-		for _, c := range m.request[table].Columns {
-			cols[c] = true
+		// a request without a "columns" member monitors every column
+		allCols := true
+		if request := m.request[table]; request != nil && request.Columns != nil {
+			allCols = false
+			for _, c := range request.Columns {
+				cols[c] = true
+			}
 		}
 		_ = update.ForEachRowUpdate(table, func(uuid string, ru2 ovsdb.RowUpdate2) error {
 			ru := &ovsdb.RowUpdate{}
@@ -172,8 +177,10 @@ func (m *monitor) filter(update database.Update) ovsdb.TableUpdates {
 				if len(cols) == 0 {
 					return nil
 				}
-				ru.New = filterColumns(ru.New, cols)
-				ru.Old = filterColumns(ru.Old, cols)
+				if !allCols {
+					ru.New = filterColumns(ru.New, cols)
+					ru.Old = filterColumns(ru.Old, cols)
+				}
 				tu[uuid] = ru
 			}
 			return nil
@@ -196,8 +203,13 @@ func (m *monitor) filter2(update database.Update) ovsdb.TableUpdates2 {
 		tu2 := ovsdb.TableUpdate2{}
 		cols := make(map[string]bool)
 		cols["_uuid"] = true
-		for _, c := range m.request[table].Columns {
-			cols[c] = true
+		// a request without a "columns" member monitors every column
+		allCols := true
+		if request := m.request[table]; request != nil && request.Columns != nil {
+			allCols = false
+			for _, c := range request.Columns {
+				cols[c] = true
+			}
 		}
 		_ = update.ForEachRowUpdate(table, func(uuid string, ru2 ovsdb.RowUpdate2) error {
 			switch {
@@ -209,9 +221,11 @@ func (m *monitor) filter2(update database.Update) ovsdb.TableUpdates2 {
 				if len(cols) == 0 {
 					return nil
 				}
-				ru2.Insert = filterColumns(ru2.Insert, cols)
-				ru2.Modify = filterColumns(ru2.Modify, cols)
-				ru2.Delete = filterColumns(ru2.Delete, cols)
+				if !allCols {
+					ru2.Insert = filterColumns(ru2.Insert, cols)
+					ru2.Modify = filterColumns(ru2.Modify, cols)
+					ru2.Delete = filterColumns(ru2.Delete, cols)
+				}
 				tu2[uuid] = &ru2
 			}
 			return nil
